@@ -502,6 +502,10 @@ class FlowModel:
                 blk.window += 1
                 try:
                     self.init_block(blk)
+                except (Unknown, ParamError) as err:
+                    # an error in an initialisation routine is fatal, also when the routine
+                    # runs early because of a pending event and the sender gets the exception
+                    raise HandlerError(dst, f"init-error/{type(err).__name__}") from None
                 finally:
                     blk.window -= 1
             return blk.handle(ev, data)
